@@ -361,13 +361,14 @@ package proxy
 //@ // non-positive one (in a goroutine nobody recovers: the process dies after a load that reported success). Invariant of
 //@ // an upstream under construction: the interval is never negative, and positive once a health-check path is set (the
 //@ // worker is only started then); every accepted sub-directive keeps it.
-//@ define hcOK(u *staticUpstream) bool = u.HealthCheck.Interval >= 0 && (u.HealthCheck.Path != "" ==> u.HealthCheck.Interval > 0)
+//@ define hcOK(u *staticUpstream) bool = u.HealthCheck.Interval >= 0 && (u.HealthCheck.Path != "" ==> u.HealthCheck.Interval > 0) && u.upstreamHeaderReplacements != nil && u.downstreamHeaderReplacements != nil && u.upstreamHeaders != nil && u.downstreamHeaders != nil
 //@ use @verif/specs/stdlib.spec:time_sinks
 //@ use casketfile/contracts_verif.go:dispenser_api
 //@ func (*staticUpstream).healthCheck
 //@ func (*staticUpstream).HealthCheckWorker
 //@   requires u != nil && u.HealthCheck.Interval > 0
 //@ func (headerReplacements).Add
+//@   requires [table_exists] h != nil
 //@   modifies MV:map[string][]github.com/tmpim/casket/caskethttp/proxy.headerReplacement, MD:map[string][]github.com/tmpim/casket/caskethttp/proxy.headerReplacement, E:github.com/tmpim/casket/caskethttp/proxy.headerReplacement
 //@ func parseBlock
 //@   requires c != nil && u != nil && hcOK(u)
@@ -444,6 +445,55 @@ package proxy
 //@   loop 2 invariant forall(b, 0, #i, listed(c, b) ==> !has(res.Header, nm(c, b)))
 //@   loop 2 invariant forall(a, 0, #i1 - 1, lineDone(#r1[a]))
 //@   loop 3 invariant res != nil && res.Header != nil && forall(a, 0, len(res.Header["Connection"]), lineDone(res.Header["Connection"][a]))
+
+//@ unit upstream_hosts props=C11,C05 nilchecks=on filter=`proxy\.staticUpstream\)\.(NewHost|resolveHost|healthCheck)$|proxy\.staticUpstream\)\.healthCheck\$1$|proxy\.(replacePort|RegisterPolicy)$|proxy\.headerReplacements\)\.(Add|Del)$`
+//@ // The remaining constructors and the health-check pass of a static upstream (safety for every configuration and every
+//@ // answer of the resolver / the backend): NewHost returns a backend with its reverse proxy or an error; the health
+//@ // check reads only backends of the pool (non-nil, as NewStaticUpstreams fills it) and a response only when the
+//@ // client reported no error.
+//@ use @verif/specs/stdlib.spec:stdlib
+//@ invariant supportedPolicies != nil
+//@ extern net/url.Parse
+//@   ensures result1 == nil ==> result0 != nil
+//@ func NewSingleHostReverseProxy
+//@   ensures result != nil
+//@ func (*ReverseProxy).UseInsecureTransport
+//@   requires rp != nil
+//@ func (*ReverseProxy).UseOwnCACertificates
+//@   requires rp != nil
+//@ func (*ReverseProxy).UseClientCertificates
+//@   requires rp != nil
+//@ // a resolver answering without error returns non-nil records (net.LookupSRV does): assumed
+//@ extern invoke:(github.com/tmpim/casket/caskethttp/proxy.srvResolver).LookupSRV
+//@   ensures result2 == nil ==> forall(k, 0, len(result1), result1[k] != nil)
+//@ extern net/http.NewRequest
+//@   ensures result1 == nil ==> result0 != nil
+//@ extern (*net/http.Client).Do
+//@   ensures result1 == nil ==> (result0 != nil && result0.Body != nil)
+//@ extern net/textproto.CanonicalMIMEHeaderKey
+//@ extern (*sync/atomic.Value).Store
+//@ extern sync/atomic.StoreInt32
+//@ extern net.SplitHostPort
+//@ extern net.JoinHostPort
+//@ extern (*net/url.URL).String
+//@ func (headerReplacements).Add
+//@   requires [table_exists] h != nil
+//@ func (headerReplacements).Del
+//@ func (*staticUpstream).NewHost
+//@   requires u != nil
+//@   ensures [backend_or_error] (result1 == nil) == (result0 != nil)
+//@   ensures [backend_has_its_proxy] result1 == nil ==> result0.ReverseProxy != nil
+//@ func (*staticUpstream).resolveHost
+//@   requires u != nil && u.resolver != nil
+//@   loop 1 invariant 0 <= #i && #i <= len(addrs) && forall(k, 0, len(addrs), addrs[k] != nil)
+//@ func (*staticUpstream).healthCheck
+//@   requires u != nil && u.resolver != nil && forall(k, 0, len(u.Hosts), u.Hosts[k] != nil)
+//@   loop 1 invariant u != nil && u.resolver != nil && forall(k, 0, len(u.Hosts), u.Hosts[k] != nil)
+//@   loop 2 invariant u != nil && u.resolver != nil && forall(k, 0, len(u.Hosts), u.Hosts[k] != nil) && host != nil
+//@ func replacePort
+//@ func RegisterPolicy
+//@ func (*staticUpstream).healthCheck$1
+//@   requires u != nil
 
 //@ unit setup_sweep props=C11 files=setup.go,upstream.go nilchecks=on nonnil_params=on dispenser_variants=on exclude=`staticUpstream\)\.(HealthCheckWorker|NewHost|Select|healthCheck|healthCheck\$1|resolveHost)$|headerReplacements\)\.Add$|proxy\.(NewStaticUpstreams|RegisterPolicy|parseUpstream|replacePort)$` filter=`.`
 //@ // Safety sweep of this directive's setup code: index, slice, division, nil-map store, nil dereference, explicit panic,
